@@ -38,7 +38,7 @@ def main():
         for m in missing:
             print("  NOT PASSING:", m)
         if missing:
-            print(p.stdout[-3000:])
+            print("\n".join(l for l in p.stdout.splitlines() if l.startswith(("FAILED", "ERROR")))[:3000])
         return 1 if missing else 0
     finally:
         subprocess.run(["git", "-C", "/repo", "worktree", "remove", "--force", wt], capture_output=True)
